@@ -449,5 +449,91 @@ def lfrc_rules(ctx):
     chain(ctx, rid, L + "guard_ptr::reclaim", [{"k": "call", "op": "fetch_sub", "desc": "ref_count.fetch_sub"}, call("guard_ptr::reset")], label="drop-initial-ref<reset", mode="nobefore")
     # free list: thread-local list is returned to the global list at thread exit
     present(ctx, "LFRC.thread-exit", L + "enable_concurrent_ptr::free_list::thread_local_free_list::~thread_local_free_list", call("add_nodes"), label="return-local-list")
+    # the reference counter is only ever modified by atomic read-modify-write operations once the node exists: a plain store would
+    # discard the transient increments of readers that are between their first load and their re-validation
+    n_rmw = 0
+    for fn in ctx.facts.fns:
+        if not fn.file.endswith("lock_free_ref_count.hpp"):
+            continue
+        for a in fn.atomics():
+            if a["field"].split("::")[-1] != "ref_count":
+                continue
+            if a["kind"] in ("rmw", "cas"):
+                n_rmw += 1
+                continue
+            if a["kind"] == "store":
+                fresh = fn.pat.endswith("operator new")
+                ctx.check(fresh, "LFRC.counter-rmw-only", fn.pat + "#ref_count.store", "store initialises the counter of freshly allocated memory",
+                          "ref_count is overwritten by a plain store in %s: increments performed concurrently by readers (acquire increments before it re-validates) are "
+                          "lost, the count drops to zero while a validated guard_ptr still refers to the node" % fn.pat, fn.where(a["nid"]), fn=fn)
+    ctx.rule("LFRC.counter-rmw-only", "the LFRC reference counter is modified only by atomic RMW operations (fetch_add / fetch_sub / CAS); the only plain store "
+                                      "initialises freshly allocated memory in operator new")
+    if n_rmw < 5:
+        ctx.broken.append("LFRC: only %d RMW operations on ref_count found" % n_rmw)
+    else:
+        ctx.ok("LFRC.counter-rmw-only", L + "#rmw-sites", "%d RMW sites on ref_count" % n_rmw, "xenium/reclamation/impl/lock_free_ref_count.hpp")
     # decrement_refcnt returns true only for the thread that set the claim bit
     present(ctx, rid, L + "enable_concurrent_ptr::decrement_refcnt", {"k": "call", "kind": "cas", "desc": "ref_count CAS"}, label="cas")
+
+
+# ---------------------------------------------------------------------------------------------------------------
+def list_push_rules(ctx):
+    """lock-free stack push idiom shared by all hand-over lists"""
+    from .harris import _reaches_without
+    rid = "LIST.push-relink"
+    ctx.rule(rid, "lock-free list push (orphan lists, abandoned nodes, control blocks, stamp-it global list, LFRC free list): the tail of the pushed "
+                  "sub-list is linked to the value the CAS expects before EVERY CAS attempt (the link is re-written after a failed CAS refreshed the expected "
+                  "head), and the CAS installs the first node")
+    sites = [
+        (R + "detail::orphan_list::add", "head"),
+        (R + "detail::thread_block_list::abandon_retired_nodes", "abandoned_retired_nodes"),
+        (R + "detail::thread_block_list::add_entry", "head"),
+        (R + "stamp_it::thread_order_queue::add_to_global_retired_nodes", "global_retired_nodes"),
+        (R + "lock_free_ref_count::enable_concurrent_ptr::free_list::add_nodes", "head"),
+    ]
+    for pat, field in sites:
+        for fn in flow._shapes(ctx, pat):
+            cas = flow.find(fn, {"k": "call", "field": field, "kind": "cas"})
+            if not cas:
+                if flow.find(fn, call(pat.split("::")[-1])):
+                    ctx.ok(rid, pat + "#delegates", "overload forwarding to the (first,last) form", fn.where(), nontrivial=False, fn=fn)
+                    continue
+                ctx.bad(rid, pat + "#cas", "no CAS on %s" % field, fn.where(), fn=fn)
+                continue
+            c = cas[0]
+            exp = fn.expr(fn.kids(c)[1])
+            links = []
+            for b, i, e, n in fn.events():
+                if n["k"] == "bin" and n["op"] == "=":
+                    k = fn.kids(e)
+                    if "next" in fn.expr(k[0]) and fn.expr(k[1]).strip("()") == exp.strip("()"):
+                        links.append(e)
+                elif n["k"] == "call" and fn.atomic(e) and fn.atomic(e)["op"] == "store" and "next" in fn.expr(fn.kids(e)[0]):
+                    k = fn.kids(e)
+                    if len(k) > 1 and exp.strip("()") in fn.expr(k[1]):
+                        links.append(e)
+                elif n["k"] == "call" and n.get("callee", "").endswith("operator=") and "next" in fn.expr(fn.kids(e)[0]):
+                    k = fn.kids(e)
+                    if len(k) > 1 and exp.strip("()") in fn.expr(k[1]):
+                        links.append(e)
+            inst = pat + "#link-before-every-attempt"
+            if not links:
+                ctx.bad(rid, inst, "no statement links the pushed nodes to the expected head '%s' of the CAS" % exp, fn.where(c), fn=fn)
+                continue
+            dominated = any(fn.before(l, c) for l in links)
+            cyc = _reaches_without(fn, c, c, set(links))
+            ctx.check(dominated and not cyc, rid, inst, "tail->next = %s is (re)written before every CAS attempt" % exp,
+                      "the CAS on %s can be retried without re-linking the tail of the pushed list to the refreshed expected head: nodes pushed by other threads in "
+                      "between are lost, or the list links into nodes another thread already adopted (double destruction / cycle)" % field, fn.where(c), fn=fn)
+    # stamp-it: the multi-chunk chain built by process_global_nodes is handed back with the (first, last) overload
+    S = R + "stamp_it::thread_data::process_global_nodes"
+    for fn in flow._shapes(ctx, S):
+        calls = flow.find(fn, call("add_to_global_retired_nodes"))
+        chain_built = any("next_chunk" in fn.expr(e) for b, i, e, n in fn.events() if n["k"] in ("bin", "un") )
+        for c in calls:
+            nargs = len(fn.kids(c)) - 1
+            ctx.check(nargs >= 2 or not chain_built, "STAMP.handback-chain", S + "#hands-back-whole-chain", "remaining chunks handed back as (first, last)",
+                      "process_global_nodes chains the chunks it could not reclaim through next_chunk but hands back only a single chunk (one-argument overload "
+                      "overwrites next_chunk): every further unreclaimable chunk is dropped and never destroyed", fn.where(c), fn=fn)
+        ctx.rule("STAMP.handback-chain", "stamp-it: chunks that could not be reclaimed by the last leaver are handed back to the global list as a whole chain")
+        ctx.check(bool(calls), "STAMP.handback-chain", S + "#hands-back", "unreclaimable chunks are handed back", "unreclaimable chunks are never handed back to the global list", fn.where(), fn=fn)
